@@ -61,6 +61,7 @@ class LeanResult:
         self.discharged = []
         self.log = ''
         self.wall = 0.0
+        self.leanchecker = None   # thorough tier: {'modules': [...], 'exit': rc} of the independent re-check
 
 
 def _lake(args, timeout=1500):
@@ -164,6 +165,15 @@ def lean_check(prop_id, module, theorems, regen=None, clean=False):
             else:
                 r.ok = False
                 r.failed.append(('theorem ' + th, 'not found / not checked: ' + _first_error(out2)))
+    if rc == 0 and os.environ.get('VERIF_TIER_ACTIVE') == 'thorough':
+        # thorough tier: the toolchain's independent re-checker replays the compiled declarations of the property modules
+        # (and of everything they import inside this library) through the kernel once more
+        rc3, out3 = _lake(['env', 'leanchecker'] + mods)
+        r.log += out3
+        r.leanchecker = {'modules': mods, 'exit': rc3}
+        if rc3 != 0:
+            r.ok = False
+            r.failed.append(('leanchecker ' + ' '.join(mods), (out3.strip().split('\n') or [''])[-1][:300]))
     r.wall = time.time() - t0
     return r
 
@@ -437,6 +447,7 @@ class Check:
             'checker_cmd': 'cd lean && lake build %s && lake env lean .lake/audit_%s.lean  (#print axioms per theorem)' % (self.extra.get('module', ''), self.id),
             'trusted_base': self.trusted,
             'theorems': {th: lean.axioms.get(th) for th in (lean.discharged if lean else [])},
+            'leanchecker': (lean.leanchecker if lean else None),
             'evaluations': ev_eval,
             'distinct_nontrivial': len(classes),
             'rule': self.extra.get('rule', ''),
